@@ -155,6 +155,8 @@ where
                 let normalized = ((F::one() + self.shape) * u + (F::one() - self.shape) * v)
                     / ((F::one() + self.shape * self.shape).sqrt()
                         * F::from(core::f64::consts::SQRT_2).unwrap());
+                #[cfg(rand_distr_verif)]
+                crate::verif_hooks::probe(83);
                 linear_map(normalized)
             }
         }
